@@ -258,6 +258,8 @@ pub struct Req {
     pub conn: usize,
     /// server-side shard of that connection
     pub shard: Option<u16>,
+    /// (nr_shards, msb_ignore) the node reported in SUPPORTED on that connection (its parameters when it was accepted)
+    pub sharding: Option<(u16, u8)>,
     pub stream: i16,
     pub flags: u8,
     pub opcode: u8,
@@ -278,6 +280,8 @@ pub struct ConnInfo {
     pub node: usize,
     pub conn: usize,
     pub shard: Option<u16>,
+    /// (nr_shards, msb_ignore) reported in SUPPORTED on this connection
+    pub sharding: Option<(u16, u8)>,
     pub peer: SocketAddr,
     pub opened: u64,
     /// clock value when READY was written
@@ -496,8 +500,16 @@ impl MockCluster {
     /// Per node: the shards that currently have a live, READY, non-control connection.
     pub fn live_shards(&self, node: usize) -> Vec<Option<u16>> {
         let st = self.shared.st.lock().unwrap();
-        let mut v: Vec<Option<u16>> =
-            st.conns[node].iter().filter(|c| c.ready.is_some() && c.closed.is_none() && !c.control).map(|c| c.shard).collect();
+        // only connections accepted under the node's CURRENT sharding parameters count (see `restart_node_with`)
+        let current = match st.topo.nodes[node].shards {
+            ShardMode::None => None,
+            ShardMode::Fixed(_, n, m) | ShardMode::ByPort(n, m) | ShardMode::ByPortShifted(n, m) => Some((n, m)),
+        };
+        let mut v: Vec<Option<u16>> = st.conns[node]
+            .iter()
+            .filter(|c| c.ready.is_some() && c.closed.is_none() && !c.control && c.sharding == current)
+            .map(|c| c.shard)
+            .collect();
         v.sort();
         v.dedup();
         v
@@ -616,6 +628,16 @@ impl MockCluster {
         self.listeners.lock().unwrap()[node] = Some(li);
     }
 
+    /// A node restart with new sharding parameters: the node stops listening and drops every connection (control
+    /// connection included), stays down for `down`, and comes back reporting `mode` in SUPPORTED on every new
+    /// connection (shards are assigned by source port under the NEW shard count). Host id, address, tokens unchanged.
+    pub async fn restart_node_with(&self, node: usize, mode: ShardMode, down: Duration) {
+        self.stop_node(node).await;
+        self.shared.st.lock().unwrap().topo.nodes[node].shards = mode;
+        tokio::time::sleep(down).await;
+        self.restart_node(node).await;
+    }
+
     /// Adds a node to the topology and starts it. The session learns of it on its next metadata refresh
     /// (`session.refresh_metadata().await`).
     pub async fn add_node(&self, spec: NodeSpec) -> usize {
@@ -686,6 +708,7 @@ fn spawn_listener(shared: Arc<Shared>, node: usize, listener: TcpListener, port:
                     node,
                     conn,
                     shard: shard.map(|s| s.0),
+                    sharding: shard.map(|s| (s.1, s.2)),
                     peer,
                     opened,
                     ready: None,
@@ -758,6 +781,7 @@ async fn serve_conn(
                 node,
                 conn,
                 shard: shard.map(|s| s.0),
+                sharding: shard.map(|s| (s.1, s.2)),
                 stream,
                 flags: hdr[1],
                 opcode,
